@@ -1680,6 +1680,10 @@ impl HnswBackend {
         let mut embedding = embedding;
         let distance = self.index.read().distance_metric();
         normalize_in_place_if_needed(distance, &mut embedding)?;
+        // Refuse inputs the index would reject (non-finite, overflowed normalization) before
+        // anything is logged. Rejecting them only after the WAL append forces a compensating
+        // Delete entry, and replaying that entry erases the previous version of `doc_id`.
+        self.index.read().validate_embedding(&embedding)?;
         let embedding_digest = digest_embedding(&embedding);
 
         let mut attempted_compaction = false;
